@@ -7,7 +7,7 @@ LEVEL_TEXT = 'parseField characterised through the regenerated guard (index iff 
 CORRESPONDENCE = "Path.parseField/parsePath + Normalize.newFrom ~ ucfg.NewFrom(map{key: v}, opts)"
 RULE = ("key strings from the Go integer-literal grammar and near misses (plus random mutations of them), as whole keys and as "
         "dotted segments, x MaxIdx in {-1,0,1,7,1024,2^40} x EnableNumKeys x PathSep; kind 'intlit' compares IntLit.parseInt/"
-        "parseUint with strconv exhaustively on short strings. Non-trivial: the key contains a digit. Distinct by "
+        "parseUint with strconv exhaustively on short strings. Plus: histories of Set / getters / Has / Remove / CountField over names that spell numbers with a separate option set per call (kind 'ops', oracle: the path model, whose segment rule is proved equal to the statement's). Non-trivial: the key contains a digit. Distinct by "
         "(literal class, MaxIdx, EnableNumKeys, PathSep, outcome shape).")
 TRUSTED_BASE = ["Lean 4 kernel", "extractor: guard_parseField, guard_idxSet_reject, defaultMaxIdx (regenerated from path.go/opts.go)",
                 "IntLit.parseInt = strconv.ParseInt(s,0,64) (validated by kind 'intlit')",
